@@ -81,4 +81,17 @@ PROPS = {
         "not_decided": ["model structures outside the skeleton family", "'beta is the only discount factor' is decided by the period-step contract of C01"],
         "assumptions": COMMON_ASSUMPTIONS + ["user functions are pure, uninterpreted functions of their bound arguments"],
     },
+    "C17": {
+        "contracts": [
+            "lcm.state_space.create_filter_mask",
+            "lcm.state_space.create_combination_grid",
+            "lcm.state_space.create_indexers_and_segments",
+        ],
+        "families": {
+            "quick": "filter mask: every skeleton with filters (retirement filter; period-dependent filter through an auxiliary function + second filter; restricted + unrestricted choices) at the first and last period; combination grid: mask ranks 1..2 (+ two masks); indexers: (restricted states, restricted choices) in {(1,1),(1,2),(2,1)}. All grid sizes and mask contents symbolic.",
+            "thorough": "all periods, reversed declaration orders; combination grid ranks 1..4; indexers up to (2,2) and without restricted choices.",
+        },
+        "not_decided": ["segment_ids = rank of the stored combination's state, and the state-choice indexer: bounded stand-in on sampled masks of extent <= 3 per axis (needs an inductive counting lemma that was not mechanised)"],
+        "assumptions": COMMON_ASSUMPTIONS + ["np.repeat(arange(m), counts) and count_nonzero(axis) carry sound but incomplete contracts"],
+    },
 }
